@@ -442,4 +442,19 @@ example : readMIMEHeader [88, 13, 10, 13, 10] = none := by decide
 example : readMIMEHeader [32, 88, 58, 49, 13, 10, 13, 10] = none := by decide
 example : readMIMEHeader [88, 58, 1, 13, 10, 13, 10] = none := by decide
 
+/-! ### keep-alive after a terminal status ≤ 199 -/
+
+/-- A response whose status is at most 199 (a terminal 101 — with or without Upgrade headers —
+or a status below 100) never leaves a reusable connection, whatever else holds: the
+`resp.StatusCode <= 199` guard of `readLoop` (tied to the code and to net/http by the
+`keepalive` lane: two requests in sequence, connections counted). -/
+theorem status_le_199_not_reused (m : Msg) (e : ReuseEnv) (h : m.sl.code ≤ 199) :
+    mayReuse m e = false := by
+  unfold mayReuse
+  simp [h]
+
+example : ∃ m : Msg, m.sl.code = 101 ∧ m.close = false ∧
+    parseHead false [72,84,84,80,47,49,46,49,32,49,48,49,32,83,13,10,13,10] = some (m, []) := by
+  refine ⟨_, ?_, ?_, rfl⟩ <;> decide
+
 end Req.Props.C04
